@@ -11,7 +11,8 @@ The compiled environment (scipy.sparse containers, SuperLU, the Krylov solvers) 
 (``META['stubs']``): value-preserving dense storage, placement of the very same blocks, and an exact linear solve.  Which block goes
 where, the ``-I`` of the residuals, the transposition of the adjoint system, the mode selection, the choice of disciplines and couplings
 to differentiate and the splitting per variable are gemseo's code running on symbols.  Concrete replays and the differential self-test
-run the real SciPy (LGMRES / SuperLU).
+run the real SciPy (LGMRES / SuperLU).  A structurally singular assembled matrix (identically zero row or column: a missing block) on a well-posed
+system is given the environment's own meaning: SuperLU's ``RuntimeError`` with ``use_lu_fact``, a solve of the regular part by the Krylov solvers.
 
 The oracle never touches gemseo: it builds ``dR/dU`` and ``dR/dx`` from the partial derivatives the disciplines return
 (``R_c = y_c - Y_c(x, y, w)`` for every coupling component, ``R_r = r(x, y, w)`` for every residual of a discipline with state variables
@@ -40,9 +41,16 @@ META = dict(
               "included) such that every requested pair is dependent and some coupling is needed, chosen by the solver; disciplines filling all blocks or only the "
               "requested ones; reversed listing order; a second, larger request on the same MDA object; harness 'subsets' (weak system): the requests with an "
               "independent (output, input) pair or needing no coupling at all (zero blocks / plain partial derivatives expected); harness 'state_direct': outputs "
-              "computed directly from a state variable",
+              "computed directly from a state variable.  Added after a missed seeded change and two reported defects, with EVERY non-empty subset of the outputs "
+              "(couplings included) x every non-empty subset of the root inputs as the request (dependent requests in 'total', the others in 'subsets'), in every MDA "
+              "class, mode and variant of the list above but not their full product: side / side_v (a discipline with a residual/state pair of size 1 / 2 that lies on "
+              "NO coupling path, next to a strongly coupled pair: a request may involve the state only, the couplings only, or both; coupled dimension 3 / 4, block "
+              "diagonal), cyc2 / cyc2u (two strongly coupled groups in one MDA, the second reading a strong coupling of the first directly, with / without a direct "
+              "dependency of the second group on x; coupled dimension 4, block triangular), selfone (a self-coupled discipline alone in its strongly coupled group "
+              "with a weakly coupled discipline downstream; added after a missed mutant)",
         thorough="the same with every non-empty output subset and every MDA class x mode x (Krylov | LU | linear operator) on every system; uninterpreted partial "
-                 "derivatives in every mode x variant (MDAGaussSeidel); second requests in direct and adjoint mode",
+                 "derivatives in every mode x variant (MDAGaussSeidel); second requests in direct and adjoint mode; side, side_v, cyc2, cyc2u, selfone in the full product as "
+                 "well, and their 'subsets' requests in every MDA class x mode x variant",
     ),
     outside=[
         "the numerical behaviour of SuperLU and of the Krylov solvers (tolerances, non-convergence, the LGMRES->GMRES->SuperLU fallback, ILU preconditioning, breakdown on "
@@ -50,7 +58,12 @@ META = dict(
         "with the same matrix and right-hand side is NOT detected",
         "the storage formats of scipy.sparse (csr/csc/dok, explicit zeros, dtype promotion): replaced by dense value-preserving storage",
         "disciplines returning scipy.sparse or JacobianOperator partial derivatives (sparse_classes / shift_identity branches of _get_jacobian_generator)",
-        "coupled dimension > 3, variable sizes > 2, more than 4 disciplines (Laplace expansion and z3's polynomial identities grow quickly)",
+        "coupled dimension > 3 (4 for the block-diagonal / block-triangular systems side_v, cyc2, cyc2u), variable sizes > 2, more than 4 disciplines (Laplace expansion "
+        "and z3's polynomial identities grow quickly); more than two strongly coupled groups, a strong coupling read by more than one other group",
+        "what the Krylov solvers do with a matrix that is singular only for particular VALUES of the partial derivatives (excluded by the well-conditioning "
+        "assumption on correct code): unspecified vector; for them only STRUCTURAL singularity (an identically zero row or column: a Jacobian block gemseo failed "
+        "to provide) is modelled, as a solve of the regular part.  SuperLU is modelled as refusing every matrix with det == 0 (exact arithmetic: a float64 replay "
+        "need not meet an exactly zero pivot; such a counterexample would be reported as non-reproducing, never as a violation)",
         "the MDA iteration itself (C06): every MDA is warm-started at a symbolic consistent point of an affine contracting execution map and stops at its first check",
         "MDANewtonRaphson / MDAQuasiNewton / MDAGSNewton and JacobianAssembly.compute_newton_step, plot_dependency_jacobian",
         "requests naming a state or residual variable as output, compute_all_jacobians=True (the couplings are then requested as inputs, which gemseo refuses)",
@@ -72,6 +85,13 @@ META = dict(
         "exact solve = adj(A) b / det(A) by cofactor expansion; for a singular A (impossible for gemseo's own matrix under the harness assumption) an unspecified vector of "
         "fresh symbols is returned; every call re-states the contract as "
         "obligations 'A x == b' so that the stub's own algebra is checked by the solver on every path",
+        "singular A, C07's own harnesses only (install_stubs(singular='environment')): factorized(A) raises RuntimeError('Factor is exactly singular') as SuperLU does, for "
+        "an identically zero row or column and on the paths where det(A) == 0; the harness turns this RuntimeError - from the stub or, in float64 replays, from the real "
+        "SuperLU - into the failed obligation 'LU factorization succeeds (assembled dR/dy singular although dR/dU of the coupled system is regular)'; structurally "
+        "singular A (an identically zero row or column) handed to the Krylov wrappers: for k identically zero rows with zero "
+        "right-hand side and k identically zero columns around a regular (n-k) x (n-k) system, return the exact solution of the regular part and UNSPECIFIED values (fresh "
+        "symbols) for the k unknowns that appear in no equation (the real LGMRES/GMRES started from zero return 0 there: the contract is weaker); any other structurally "
+        "singular system: an unspecified vector.  The differential self-test runs these paths on the real LGMRES",
         "scipy_linalg.issparse -> also true for DenseSparse",
         "jacobian_assembly.norm (used only by the LU modes' residual diagnostic, which gates a log message) -> an opaque value that is never above the tolerance",
         "module global float() in gemseo.mda.base_mda_solver -> identity on symbolic reals (as in C06/C17)",
@@ -82,6 +102,8 @@ META = dict(
         "the MDA is started at the consistent point y* = Y(x, y*) of an affine execution map with concrete dyadic contraction coefficients (y* is an explicit exact linear "
         "combination of the symbolic inputs x, computed in the harness); the partial derivatives handed to gemseo are independent of that map (gemseo never compares them)",
         "every input of a harness discipline influences every output of it (the structural dependency used to classify requests)",
+        "well-conditioned means the residual Jacobian of the WHOLE coupled system (all couplings and states) is regular; the property then requires every request to "
+        "succeed whatever the LU option: a RuntimeError of the factorization on such a system is reported",
     ],
 )
 
@@ -109,6 +131,21 @@ SYSTEMS = {
               ("d2", {"s": 1}, {"y1": 1})],
     # the same where the coupling y1 and the function g are outputs of the discipline owning the state: they depend directly on the state
     "state_fn": [("d0", {"x": 1, "y1": 1}, {"y0": 1, "f": 1}), ("B", {"y0": 1, "u": 1, "s": 1}, {"s": 1, "r": 1, "y1": 1, "g": 1}, {"r": "s"})],
+    # a discipline with a residual/state pair that is on NO coupling path (f depends on x only through the state w) next to a strongly coupled pair:
+    # requesting f alone involves no coupling variable at all (only the state), requesting h alone does not involve the state discipline
+    "side": [("Imp", {"x": 1, "w": 1}, {"w": 1, "r": 1, "f": 1}, {"r": "w"}), ("da", {"x": 1, "u": 1, "yb": 1}, {"ya": 1}),
+             ("db", {"ya": 1}, {"yb": 1, "h": 1})],
+    # the same with a state, a residual and an input of size 2 (coupled dimension 4, block diagonal)
+    "side_v": [("Imp", {"x": 2, "w": 2}, {"w": 2, "r": 2, "f": 1}, {"r": "w"}), ("da", {"x": 2, "u": 1, "yb": 1}, {"ya": 1}),
+               ("db", {"ya": 1}, {"yb": 1, "h": 1})],
+    # two strongly coupled groups in one MDA, the second one (d3, d4) reading the strong coupling y1 of the first one (d1, d2) directly
+    "cyc2": [("d1", {"x": 1, "y2": 1}, {"y1": 1}), ("d2", {"y1": 1}, {"y2": 1}), ("d3", {"x": 1, "y1": 1, "y4": 1}, {"y3": 1}),
+             ("d4", {"y3": 1}, {"y4": 1, "f": 1})],
+    # the same where the second group depends on x ONLY through the first group (d3 reads a local input u instead of x)
+    "cyc2u": [("d1", {"x": 1, "y2": 1}, {"y1": 1}), ("d2", {"y1": 1}, {"y2": 1}), ("d3", {"u": 1, "y1": 1, "y4": 1}, {"y3": 1}),
+              ("d4", {"y3": 1}, {"y4": 1, "f": 1})],
+    # a self-coupled discipline that is in no cycle with another discipline (a strongly coupled "group" of one) and a weakly coupled one downstream
+    "selfone": [("d0", {"x": 1, "y0": 1}, {"y0": 1, "f": 1}), ("d1", {"u": 1, "y0": 1}, {"g": 1})],
 }
 
 
@@ -536,14 +573,31 @@ def _const0(v):
     return v
 
 
+SINGULAR_MESSAGE = "Factor is exactly singular"  # the RuntimeError of SuperLU (scipy.sparse.linalg.factorized / splu)
+
+
+def _structurally_singular(rows):
+    n = len(rows)
+    return any(all(_is0(v) for v in row) for row in rows) or any(all(_is0(rows[r][c]) for r in range(n)) for c in range(n))
+
+
 class SolveContract:
     """The exact linear solve standing for SuperLU and the Krylov solvers: for a non-singular ``A`` the unique ``x`` with ``A x = b``
     (written as adj(A) b / det(A)).  Singular systems are outside the contract (an unspecified vector is returned).  Every use
-    re-states the contract as obligations ``A x == b`` so that the stub's own algebra is checked by the solver."""
+    re-states the contract as obligations ``A x == b`` so that the stub's own algebra is checked by the solver.
 
-    def __init__(self, ctx):
+    With ``singular='environment'`` a singular matrix is treated as the compiled environment treats it: SuperLU (``factorized``) raises
+    ``RuntimeError('Factor is exactly singular')``; the Krylov solvers solve the regular part of a STRUCTURALLY singular (identically zero
+    rows and columns: the way a missing Jacobian block shows), decoupled system (``_decoupled``) and return an unspecified vector
+    otherwise."""
+
+    def __init__(self, ctx, singular="unspecified"):
         self.ctx = ctx
         self.n = 0
+        # what a singular matrix means (see ``install_stubs``): 'unspecified' = outside the contract (the historical behaviour, kept for the
+        # harnesses importing these stubs); 'environment' = what the compiled environment does: SuperLU refuses it, a Krylov solver
+        # solves the regular part of a system that decouples into a regular part and identically zero equations
+        self.singular = singular
 
     def matrix_of(self, A):
         if isinstance(A, DenseSparse):
@@ -559,7 +613,7 @@ class SolveContract:
             return out
         return _to_dense2d(A)
 
-    def solve(self, A, b):
+    def solve(self, A, b, lu=False):
         ctx = self.ctx
         M = self.matrix_of(A)
         n = M.shape[0]
@@ -571,15 +625,61 @@ class SolveContract:
         if len(bv) != n:
             raise ValueError(f"solve: right-hand side of size {len(bv)} for a matrix of order {n}")
         rows = [[_const0(_py(M[r, c])) for c in range(n)] for r in range(n)]
-        det = _det_col(rows)
         self.n += 1
+        if self.singular == "environment" and _structurally_singular(rows):
+            if lu:
+                raise RuntimeError(SINGULAR_MESSAGE)  # (already refused by ``factorized``)
+            dec = self._decoupled(rows, bv)
+            if dec is not None:
+                return dec, bshape
+            det = 0.0
+        else:
+            det = _det_col(rows)
         if bool(det == 0):
+            if self.singular == "environment" and lu:
+                raise RuntimeError(SINGULAR_MESSAGE)  # (already refused by ``factorized``)
             # singular system: outside the contract, the solvers return an unspecified vector (infeasible for gemseo's own matrix under
             # the harness assumption det(dR/dU) != 0; reached only when a wrong matrix is handed to the solver)
             out = _zeros((n,))
             for c in range(n):
                 out[c] = ctx.real(f"unspecified_solution{self.n}_{c}")
             return out, bshape
+        return self._exact(rows, bv, det, ""), bshape
+
+    def is_singular(self, A):
+        """An identically zero row or column, or det(A) == 0 on this path (forks when that depends on the values of the symbols)."""
+        M = self.matrix_of(A)
+        rows = [[_const0(_py(M[r, c])) for c in range(M.shape[1])] for r in range(M.shape[0])]
+        return _structurally_singular(rows) or bool(_det_col(rows) == 0)
+
+    def _decoupled(self, rows, bv):
+        """Krylov solvers on a singular but consistent system of a special form: k identically zero rows with a zero right-hand side and
+        k identically zero columns (unknowns that appear in no equation), the remaining (n-k) x (n-k) system being regular.  Started
+        from zero the Krylov iterates stay in span{b, A b, ...}: they solve the regular part; the decoupled unknowns are left
+        unspecified here (fresh symbols), which is weaker.  Any other singular system: ``None`` (unspecified vector)."""
+        n = len(rows)
+        zr = [r for r in range(n) if all(_is0(v) for v in rows[r]) and _is0(bv[r])]
+        zc = [c for c in range(n) if all(_is0(rows[r][c]) for r in range(n))]
+        if not zr or len(zr) != len(zc) or len(zr) == n:
+            return None
+        keep_r = [r for r in range(n) if r not in zr]
+        keep_c = [c for c in range(n) if c not in zc]
+        sub = [[rows[r][c] for c in keep_c] for r in keep_r]
+        det = _det_col(sub)
+        if bool(det == 0):
+            return None
+        xs = self._exact(sub, [bv[r] for r in keep_r], det, " (regular part of a decoupled singular system)")
+        out = _zeros((n,))
+        for q, c in enumerate(keep_c):
+            out[c] = xs[q]
+        for c in zc:
+            out[c] = self.ctx.real(f"unspecified_decoupled_unknown{self.n}_{c}")
+        return out
+
+    def _exact(self, rows, bv, det, what):
+        """adj(A) b / det(A) for det(A) != 0, re-stated as obligations A x == b."""
+        ctx = self.ctx
+        n = len(rows)
         x = []
         for c in range(n):
             acc = 0.0
@@ -596,11 +696,11 @@ class SolveContract:
                 if _is0(rows[r][c]) or _is0(x[c]):
                     continue
                 lhs = lhs + rows[r][c] * x[c]
-            ctx.check(f"stub contract: solve #{self.n} row {r}: A x == b", ctx.eq(lhs, bv[r]))
+            ctx.check(f"stub contract: solve #{self.n} row {r}{what}: A x == b", ctx.eq(lhs, bv[r]))
         out = _zeros((n,))
         for c in range(n):
             out[c] = x[c]
-        return out, bshape
+        return out
 
 
 class _ExactResidual:
@@ -614,7 +714,11 @@ class _ExactResidual:
         return False
 
 
-def install_stubs(ctx):
+def install_stubs(ctx, singular="unspecified"):
+    """``singular``: what the solve contract does with a matrix whose determinant is zero on the current path.  'unspecified' (default,
+    historical): an unspecified vector whatever the solver; 'environment': ``factorized`` raises the RuntimeError of SuperLU ("Factor
+    is exactly singular") and the Krylov wrappers solve the regular part of a structurally singular, decoupled system
+    (``SolveContract._decoupled``)."""
     if not ctx.symbolic:
         return None
     import gemseo.algos.linear_solvers.scipy_linalg.scipy_linalg as sl
@@ -622,11 +726,14 @@ def install_stubs(ctx):
     import gemseo.mda.base_mda_solver as bms
     from symgem.core import SymReal
 
-    sc = SolveContract(ctx)
+    sc = SolveContract(ctx, singular)
 
     def factorized(A):
+        if singular == "environment" and sc.is_singular(A):
+            raise RuntimeError(SINGULAR_MESSAGE)  # as scipy.sparse.linalg.factorized (SuperLU), at factorization time
+
         def solve(b):
-            x, bshape = sc.solve(A, b)
+            x, bshape = sc.solve(A, b, lu=True)
             return x.reshape(bshape)
 
         return solve
@@ -753,7 +860,7 @@ def _run(ctx, cfg, kind):
     pre = f"{cfg['system']}: "
     sizes = S.sizes
     partials = Partials(ctx, S, cfg.get("partials", "free"))
-    install_stubs(ctx)
+    install_stubs(ctx, singular="environment")
 
     # symbolic inputs and the consistent point (couplings and states) of the affine, contracting execution map
     point = {n: [ctx.real(f"p_{n}{k}") for k in range(sizes[n])] for n in S.roots}
@@ -782,6 +889,13 @@ def _run(ctx, cfg, kind):
     def linearize(label, I, O):
         try:
             return mda.linearize(data)
+        except RuntimeError as e:
+            if str(e) != SINGULAR_MESSAGE:
+                raise
+            # SuperLU (float64 replays) or its contract stub (symbolic mode) refused the assembled matrix: the coupled system is well posed (the oracle's
+            # own dR/dU is regular by assumption), so the property requires a result whatever the LU option
+            _ck(ctx, pre + label + " LU factorization succeeds (assembled dR/dy singular although dR/dU of the coupled system is regular)", ctx.false())
+            return None
         except ValueError as e:
             # gemseo refuses a request containing an input on which no requested output depends: accepted (see META['outside'])
             msg = str(e)
@@ -839,6 +953,8 @@ def h_subsets(ctx, cfg):
 
 
 CLEAN_SYSTEMS = ("ring2", "ring2v", "self", "ring3", "weak", "state", "state_fn")
+SIDE_SYSTEMS = ("side", "side_v")
+CYCLE_SYSTEMS = ("cyc2", "cyc2u")
 VARIANTS = {"krylov": dict(), "lu": dict(lu=True), "linop": dict(matrix="linear_operator")}
 
 
@@ -904,6 +1020,59 @@ def configs(tier):
         for req in (range(n_direct[system]) if not quick else (0, 1)):
             for mode, variant in (("direct", "krylov"), ("adjoint", "lu")):
                 out.append(("state_direct", dict(system=system, mda="gs", mode=mode, outs="direct", req=req, max_out=None, **VARIANTS[variant])))
+    # ---- added after a missed seeded change and two reported defects (appended so that the indices of the configurations above are stable) ----
+    # SIDE_SYSTEMS: a residual/state discipline on no coupling path next to a strongly coupled pair; CYCLE_SYSTEMS: two strongly coupled groups, the
+    # second one reading a strong coupling of the first one.  EVERY non-empty subset of outputs x every non-empty subset of inputs in both tiers
+    # (max_out=None): the dependent, coupling-or-state-needing requests in 'total', the others (independent pairs) in 'subsets'.
+    for system in SIDE_SYSTEMS + CYCLE_SYSTEMS:
+        n = len(SYSTEMS[system])
+        rev = list(reversed(range(n)))
+        if quick:
+            combos = [("gs", "direct", "krylov"), ("gs", "adjoint", "lu"), ("gs", "auto", "linop"), ("jacobi", "direct", "lu"), ("jacobi", "adjoint", "krylov"),
+                      ("chain", "auto", "krylov"), ("chain", "adjoint", "lu"), ("chain", "direct", "linop")]
+            if system in ("side_v", "cyc2u"):
+                combos = [("gs", "direct", "lu"), ("gs", "adjoint", "krylov"), ("jacobi", "auto", "linop"), ("chain", "adjoint", "lu")]
+            for mda, mode, variant in combos:
+                add("total", system, mda, mode, variant, max_out=None)
+            add("total", system, "gs", "adjoint", jac_mode="requested", order=rev, max_out=None)
+            if system in ("side", "cyc2"):
+                add("total", system, "chain", "direct", partials="uf", jac_mode="requested", order=rev, max_out=None)
+                add("total", system, "jacobi", "adjoint", solver="GMRES", max_out=None)
+                add("total", system, "gs", "direct", second=True)
+                add("total", system, "chain", "adjoint", "lu", second=True, jac_mode="requested")
+        else:
+            for mda in ("gs", "jacobi", "chain"):
+                for mode in ("direct", "adjoint", "auto"):
+                    for variant in VARIANTS:
+                        add("total", system, mda, mode, variant)
+            for mode in ("direct", "adjoint", "auto"):
+                for variant in VARIANTS:
+                    add("total", system, "gs", mode, variant, partials="uf", jac_mode="requested", order=rev)
+            for mda in ("gs", "chain"):
+                for mode in ("direct", "adjoint"):
+                    add("total", system, mda, mode, second=True, max_out=1)
+                    add("total", system, mda, mode, "lu", second=True, jac_mode="requested", max_out=1)
+            for solver in ("LGMRES", "GMRES"):
+                add("total", system, "jacobi", "adjoint", solver=solver)
+    for system in ("side", "side_v", "cyc2u"):  # (cyc2 has a single root input: every request is dependent)
+        if quick:
+            combos = [("gs", "direct", "krylov"), ("chain", "adjoint", "lu"), ("jacobi", "auto", "linop")] if system == "side" else \
+                     [("gs", "adjoint", "lu"), ("chain", "direct", "krylov")]
+        else:
+            combos = [(mda, mode, variant) for mda in ("gs", "jacobi", "chain") for mode in ("direct", "adjoint", "auto") for variant in VARIANTS]
+        for mda, mode, variant in combos:
+            add("subsets", system, mda, mode, variant, max_out=None)
+    # a self-coupled discipline alone in its group (every subset of outputs x inputs)
+    if quick:
+        combos = [("gs", "direct", "krylov"), ("gs", "adjoint", "lu"), ("jacobi", "auto", "linop"), ("chain", "adjoint", "krylov"), ("chain", "direct", "lu")]
+    else:
+        combos = [(mda, mode, variant) for mda in ("gs", "jacobi", "chain") for mode in ("direct", "adjoint", "auto") for variant in VARIANTS]
+    for mda, mode, variant in combos:
+        add("total", "selfone", mda, mode, variant, max_out=None)
+    add("total", "selfone", "gs", "adjoint", jac_mode="requested", order=[1, 0], partials="uf", max_out=None)
+    add("total", "selfone", "chain", "direct", second=True)
+    for mda, mode, variant in combos[:2] if quick else combos:
+        add("subsets", "selfone", mda, mode, variant, max_out=None)
     return out
 
 
